@@ -57,7 +57,7 @@ def rand_size(rng: np.random.Generator, max_size: int, min_size: int = 2) -> int
     elif kind == 1:
         n = min_size + 1
     elif kind == 2:
-        n = int(rng.integers(min_size, min(max_size, 9) + 1))
+        n = int(rng.integers(min_size, max(min(max_size, 9), min_size) + 1))
     elif kind == 3:
         n = int(rng.integers(min_size, max_size + 1)) | 1
     elif kind == 4:
